@@ -4,7 +4,7 @@ Equality with the discrete S-transform in every time-frequency cell, the Fourier
 import ast
 
 from ..tyob import *  # noqa
-from ..tyob import analyse, expect, item, unmodelled_in
+from ..tyob import analyse, expect, item, unmodelled_in, concat_pieces
 
 ST = "eqsig.stockwell."
 ACC = "eqsig.single.AccSignal"
@@ -79,11 +79,18 @@ def run(chk):
     sl = sorted(((repr(e.index.items[0].sym) if e.index.items[0] is not None else None, repr(e.index.items[1].sym) if e.index.items[1] is not None else None,
                   "conj" in e.value.tags and "flip" in e.value.tags) for e in stores), key=repr)
     want = sorted([("1", "m", True), ("m+1", None, False)], key=repr)
-    chk.ob("R-ST-LIN", c + "{halves}", "lower half = flip(conj(ss[1:])), upper half = ss[1:]; bins 0 and n/2 stay zero", sl == want, derived="%s" % sl,
-           loc=stores[0].loc if stores else r.fi.loc())
+    pcs, cat_ev = concat_pieces(r, lambda e: e.fn == q, "p:stock") if not stores else (None, None)
+    if pcs is not None:
+        m1 = repr(LinExpr("m") - 1)
+        chk.ob("R-ST-LIN", c + "{halves}", "lower half = flip(conj(ss[1:])), upper half = ss[1:]; bins 0 and n/2 stay zero",
+               pcs == [("1", "zero"), (m1, "mirror"), ("1", "zero"), (m1, "plain")], derived="pieces %s" % pcs, loc=cat_ev.loc)
+    else:
+        chk.ob("R-ST-LIN", c + "{halves}", "lower half = flip(conj(ss[1:])), upper half = ss[1:]; bins 0 and n/2 stay zero", sl == want, derived="%s" % sl,
+               loc=stores[0].loc if stores else r.fi.loc(), inconclusive=not stores)
     # dominant frequency helpers
     summ = {}
-    for name, build in (("get_max_stockwell_freq", lambda I, st, fi: dict(asig=make_signal(I, st, P.cls(ACC), name="asig")[1])),
+    # the record is taken cold (no transform attached yet, so hasattr(asig, 'swtf') is False): the helper computes the transform itself
+    for name, build in (("get_max_stockwell_freq", lambda I, st, fi: dict(asig=make_signal(I, st, P.cls(ACC), name="asig", is_param=False)[1])),
                         ("get_max_tifq_vals_freq", lambda I, st, fi: dict(tifq_values=AV(kind=K_ARRAY, dtype="complex", shape=(LinExpr("m"), LinExpr("N")),
                                                                                      alg={R: LIN}, origin=frozenset(["p:tifq_values"])),
                                                                           dt=pos_scalar("dt", DT)))):
@@ -106,23 +113,50 @@ def run(chk):
              [(e.base, e.index, e.loc) for e in r.events("subscript") if inmod(e) and e.index.kind == K_ARRAY and "red:argmax" in e.index.tags and
               e.index.dtype == "int"]
         okt = len(tk) == 1 and "flip" in tk[0][0].tags and "red:argmax" in tk[0][1].tags and alg_degree(tk[0][0].a(DT)) == Exp(-1)
-        chk.ob("R-ST-AXIS", c + "{frequency axis}", "frequencies (degree -1 in dt) flipped like the rows, indexed by the argmax", okt,
-               derived="%d selection(s) by the argmax" % len(tk), loc=tk[0][2] if tk else r.fi.loc())
-        # the frequency axis itself: arange(1, points+1) / (2 * points * dt), points = number of rows
-        from ..poly import Normaliser
+        from ..poly import Normaliser, straightline_env
         scopes = [r.fi] + [chk.P.fn(e.callee) for e in r.events("call") if e.fn == q and e.callee.startswith(ST) and e.callee in chk.P.functions]
+        closed = None
+        if not tk:
+            # no table of frequencies: the frequency of row i written in closed form.  Row i of the flipped axis arange(1, p+1)/(2 p dt) is
+            # element p-1-i of the unflipped one, (p - i) / (2 p dt): the expression computed from the argmax must be that polynomial
+            for sc in scopes:
+                ams = [n for n in ast.walk(sc.node) if isinstance(n, ast.Assign) and isinstance(n.targets[0], ast.Name) and isinstance(n.value, ast.Call)
+                       and ast.unparse(n.value.func).split(".")[-1] == "argmax"]
+                if len(ams) != 1:
+                    continue
+                ix = ams[0].targets[0].id
+                env = straightline_env(sc.node.body, Normaliser(), exclude=set(sc.params) | {ix, "points"})
+                for n in ast.walk(sc.node):
+                    e_ = n.value if isinstance(n, (ast.Assign, ast.Return)) and n.value is not None else None
+                    if e_ is None or n is ams[0] or not any(isinstance(x, ast.Name) and x.id == ix for x in ast.walk(e_)) or \
+                            not isinstance(e_, ast.BinOp):
+                        continue
+                    pl = env.poly(e_).subst_atoms(lambda a: "dt" if a.endswith(".dt") or a == "dt" else a).canon()
+                    closed = (pl, sc.loc(n))
+        if closed is not None:
+            want_c = Normaliser().poly(ast.parse("(points - %s) / (2 * points * dt)" % ix, mode="eval").body).canon()
+            chk.ob("R-ST-AXIS", c + "{frequency axis}", "row i (the argmax) is frequency (points - i) / (2 * points * dt): the flipped axis in closed form",
+                   closed[0] == want_c, derived=closed[0], loc=closed[1])
+            form = "closed form" if closed[0] == want_c else closed[0]
+            okt = closed[0] == want_c
+            chk.ob("R-ST-AXIS", c + "{axis form}", "frequencies = arange(1, points + 1) / (2 * points * dt)", closed[0] == want_c,
+                   derived="closed form %s" % closed[0], loc=closed[1])
+        else:
+            chk.ob("R-ST-AXIS", c + "{frequency axis}", "frequencies (degree -1 in dt) flipped like the rows, indexed by the argmax", okt,
+                   derived="%d selection(s) by the argmax" % len(tk), loc=tk[0][2] if tk else r.fi.loc(), inconclusive=not tk)
+            # the frequency axis itself: arange(1, points+1) / (2 * points * dt), points = number of rows
 
-        def unflip(v):
-            while isinstance(v, ast.Call) and ast.unparse(v.func) in ("np.flip", "np.flipud", "numpy.flip", "numpy.flipud") and v.args:
-                v = v.args[0]
-            return v
-        fdef = [n for sc in scopes for n in ast.walk(sc.node) if isinstance(n, ast.Assign) and isinstance(n.targets[0], ast.Name) and
-                isinstance(unflip(n.value), ast.BinOp) and "arange" in ast.unparse(n.value)]
-        form = None
-        if len(fdef) == 1:
-            form = Normaliser().poly(unflip(fdef[0].value)).subst_atoms(lambda a: "dt" if a.endswith(".dt") or a == "dt" else a).canon()
-        chk.ob("R-ST-AXIS", c + "{axis form}", "frequencies = arange(1, points + 1) / (2 * points * dt)", form == "1/2*dt^-1*np.arange(1, 1 + 1*points)*points^-1",
-               derived="%s" % form, loc=r.fi.loc(fdef[0]) if fdef else r.fi.loc())
+            def unflip(v):
+                while isinstance(v, ast.Call) and ast.unparse(v.func) in ("np.flip", "np.flipud", "numpy.flip", "numpy.flipud") and v.args:
+                    v = v.args[0]
+                return v
+            fdef = [n for sc in scopes for n in ast.walk(sc.node) if isinstance(n, ast.Assign) and isinstance(n.targets[0], ast.Name) and
+                    isinstance(unflip(n.value), (ast.BinOp, ast.Call)) and "arange" in ast.unparse(n.value)]
+            form = None
+            if len(fdef) == 1:
+                form = Normaliser().poly(unflip(fdef[0].value)).subst_atoms(lambda a: "dt" if a.endswith(".dt") or a == "dt" else a).canon()
+            chk.ob("R-ST-AXIS", c + "{axis form}", "frequencies = arange(1, points + 1) / (2 * points * dt)", form == "1/2*dt^-1*np.arange(1, 1 + 1*points)*points^-1",
+                   derived="%s" % form, loc=r.fi.loc(fdef[0]) if fdef else r.fi.loc(), inconclusive=not fdef)
         pts = [n for sc in scopes for n in ast.walk(sc.node) if isinstance(n, ast.Assign) and isinstance(n.targets[0], ast.Name) and n.targets[0].id == "points"]
         chk.ob("R-ST-AXIS", c + "{points}", "points is the number of rows of the transform", len(pts) == 1 and isinstance(pts[0].value, ast.Call) and
                ast.unparse(pts[0].value.func) == "len", derived="%s" % (ast.unparse(pts[0].value) if pts else None), loc=r.fi.loc())
@@ -188,15 +222,41 @@ def gauss_rule(chk):
     syn = {"np.flip": "np.flipud", "numpy.flipud": "np.flipud", "np.transpose": "np.transpose"}
     norm = straightline_env(fi.node.body, Normaliser(rename={fi.params[0]: "N"}), exclude=set(fi.params))
     class _T(ast.NodeTransformer):
+        """orientation (which axis is the voice) is decided by the shape obligation (h x 2h, R-ST-LIN): transposes are dropped here, the
+        outer product is a product, and joining 1-D pieces by hstack is concatenate"""
         def visit_Attribute(self, n):
             self.generic_visit(n)
             if n.attr == "T" and isinstance(n.ctx, ast.Load):
-                return ast.Call(func=ast.Attribute(value=n.value, attr="transpose", ctx=ast.Load()), args=[], keywords=[])
+                return n.value
+            return n
+
+        def visit_Call(self, n):
+            self.generic_visit(n)
+            f = ast.unparse(n.func)
+            if isinstance(n.func, ast.Attribute) and n.func.attr == "transpose" and not n.args and not n.keywords:
+                return n.func.value
+            if f in ("np.transpose", "numpy.transpose") and len(n.args) == 1 and not n.keywords:
+                return n.args[0]
+            if f in ("np.hstack", "numpy.hstack"):
+                n.func = ast.Attribute(value=n.func.value, attr="concatenate", ctx=ast.Load())
+            return n
+
+        def visit_Subscript(self, n):
+            self.generic_visit(n)
+            # x[:, np.newaxis] / x[np.newaxis, :] / x[None, :]: the same numbers, laid out for broadcasting
+            if isinstance(n.slice, ast.Tuple) and len(n.slice.elts) == 2:
+                kinds = ["new" if ast.unparse(e) in ("np.newaxis", "numpy.newaxis", "None") else
+                         ("all" if (isinstance(e, ast.Slice) and e.lower is None and e.upper is None and e.step is None) else "?") for e in n.slice.elts]
+                if sorted(kinds) == ["all", "new"]:
+                    return n.value
             return n
     import copy
-    got = norm.poly(ast.fix_missing_locations(_T().visit(copy.deepcopy(rets[0].value)))).canon()
+    for k_ in list(norm.env):
+        pass
+    norm2 = straightline_env([_T().visit(copy.deepcopy(st_)) for st_ in fi.node.body], Normaliser(rename={fi.params[0]: "N"}), exclude=set(fi.params))
+    got = norm2.poly(ast.fix_missing_locations(_T().visit(copy.deepcopy(rets[0].value)))).canon()
     ref_txt = GAUSS_REF[0].replace("H", "(" + GAUSS_REF[1] + ")")
-    want = Normaliser().poly(ast.parse(ref_txt, mode="eval").body).canon()
+    want = Normaliser().poly(ast.fix_missing_locations(_T().visit(ast.parse(ref_txt, mode="eval").body))).canon()
     for a, b in (("numpy.", "np."), ("math.pi", "pi")):
         got = got.replace(a, b)
     skel = lambda t: re.findall(r"[A-Za-z_][\w\.]*", t)     # the sequence of names and calls; constants and operators dropped
